@@ -1,6 +1,9 @@
 package props
 
-import "astverif/demuxrules"
+import (
+	"astverif/demuxrules"
+	"astverif/ownership"
+)
 
 func init() { register("C07", "other", c07) }
 
@@ -13,11 +16,15 @@ func c07(c *Ctx) {
 		"(I3) every bytesPool.get is followed on every path by `defer bytesPool.put(item)` on its result, and the item, its .s slice, slices of it, the BytesIterator built on it and NextBytesNoCopy results are never stored, returned, appended to, captured or converted to an interface; they are only passed to copy/len, isPESPayload, encoding/binary readers, iterator methods and parse* functions. " +
 		"(I4/S7) every range over a map in functions reachable from NextData/NextPacket/Rewind only collects keys into a local slice and a sort of that slice dominates every later use; the muxer's toPATDataUnlocked ranges a map proven single-entry by who-may-write. " +
 		"(I5) in parseData every pid use is ps[0].Header.PID and every FirstPacket is a copy of ps[0].Header/AdaptationField; no other constant index into ps. " +
-		"NOT decided: equality of per-PID output sequences across interleavings as a behavioural fact; the effect of the timing of PAT delivery on which PIDs are PMT PIDs (allowed by the property); whether parse* functions retain bytes borrowed from the pooled buffer (property C16); data races (the API is single-threaded)."
-	r.RuleText = "one obligation for the accumulator key and one for the constructor (I1), one per package-level variable, per writer of programMap.p and per setUnlocked call site (I2), two per bytesPool.get site (I3), one per map range (S7), one for parseData's unit identity (I5)"
+		"(I6/S5) the TransportErrorIndicator and HasPayload tests of (*packetPool).addUnlocked dominate every access to the accumulator map and acc.add and their drop edges have no effect (the rule shared with C06): a corrupted packet, whose PID field cannot be trusted, never touches the accumulator of the PID it shows. " +
+		"(I7/S3) borrowed-slice retention (the rule of C16): every value aliasing a reused buffer — NextBytesNoCopy results, loads of bytesPoolItem.s and packetBuffer.packetReadBuffer, the []byte parameters/results they flow into — is never stored in a result field, boxed, captured or returned; a retained borrowed slice would be overwritten by the next packet or unit of ANY pid. " +
+		"NOT decided: equality of per-PID output sequences across interleavings as a behavioural fact; the effect of the timing of PAT delivery on which PIDs are PMT PIDs (allowed by the property); data races (the API is single-threaded)."
+	r.RuleText = "one obligation for the accumulator key and one for the constructor (I1), one per package-level variable, per writer of programMap.p and per setUnlocked call site (I2), two per bytesPool.get site (I3), one per map range (S7), one for parseData's unit identity (I5), two for the packet filters of addUnlocked (I6), one per borrowed or owned byte-slice source site and per retained result field (I7/S3)"
 	r.Trusted = []string{"go/types + go/ssa (x/tools v0.29.0): SSA construction, dominator tree, def-use, static callees",
 		"sync.Pool hands an item to one holder at a time", "astikit v0.30.0 summary: NextBytesNoCopy borrows, NextBytes/Dump copy; BytesIterator methods do not retain the buffer beyond the iterator",
-		"isPESPayload and encoding/binary.BigEndian.UintN only read their argument"}
+		"isPESPayload and encoding/binary.BigEndian.UintN only read their argument",
+		"the audited reads-only callee table of package ownership (rule S3, as in C16): astikit BitsWriter.Write/WriteBytesN, io.Writer/io.Reader contracts"}
 	demuxrules.New(c.P, r).C07()
-	r.Floor("C07", "obligations", len(r.Obls), 15)
+	r.Floor("S3", "borrowed/owned byte-slice source sites", ownership.BorrowTaint(c.P, r), 10)
+	r.Floor("C07", "obligations", len(r.Obls), 18)
 }
